@@ -51,6 +51,10 @@ type Case struct {
 	Fail    []string        `json:"fail,omitempty"`  // path@version whose callback returns an error
 	Stall   []string        `json:"stall,omitempty"` // callbacks parked until nothing else can run
 	FailUpg []string        `json:"fail_upgrade,omitempty"`
+	// Arena: the requirement lists handed to the code under test are adjacent parts of one
+	// array, each with spare capacity that overlaps its neighbours (Reqs: "the caller must not
+	// modify the returned list" — an append or insert that stays within capacity does).
+	Arena bool `json:"arena,omitempty"`
 }
 
 func (c *Case) SchedCfg() *sim.SchedConfig { return &c.Sched }
@@ -251,6 +255,7 @@ func gen(seed uint64, tier string, idx int) sim.CaseI {
 	// knobs
 	c.Procs = []int{1, 2, 4, 32}[kr.Intn(4)]
 	c.MaxPark = []float64{0, 0.05, 0.2, 0.5}[kr.Intn(4)]
+	c.Arena = kr.Bool(0.5)
 	c.Sched = sim.SchedConfig{Seed: sim.Mix(seed, 3)}
 	switch kr.Intn(10) {
 	case 0:
@@ -402,8 +407,25 @@ func cmpSV(a, b string) int {
 
 type universe struct {
 	main   module.Version
-	reqs   map[module.Version][]module.Version
+	reqs   map[module.Version][]module.Version // what the oracle reads
+	hand   map[module.Version][]module.Version // what Required hands out (same contents, own storage)
 	byPath map[string][]string
+}
+
+// modified reports a requirement list that no longer holds what it held when it was handed out.
+func (u *universe) modified() string {
+	for m, want := range u.reqs {
+		got := u.hand[m]
+		if len(got) != len(want) {
+			return fmt.Sprintf("%v: length %d, was %d", m, len(got), len(want))
+		}
+		for i := range want {
+			if got[i] != want[i] {
+				return fmt.Sprintf("the list of %v now has %v at %d, was %v", m, got[i], i, want[i])
+			}
+		}
+	}
+	return ""
 }
 
 func mv(p, v string) module.Version { return module.MustNewVersion(p, v) }
@@ -422,6 +444,28 @@ func build(c *Case) *universe {
 		u.byPath[n.P] = append(u.byPath[n.P], n.V)
 	}
 	u.reqs[u.main] = conv(c.Main)
+	u.hand = map[module.Version][]module.Version{}
+	total := 0
+	for _, l := range u.reqs {
+		total += len(l)
+	}
+	arena := make([]module.Version, 0, total)
+	place := func(m module.Version) {
+		l := u.reqs[m]
+		if !c.Arena {
+			u.hand[m] = append(make([]module.Version, 0, len(l)), l...)
+			return
+		}
+		lo := len(arena)
+		arena = append(arena, l...)
+		u.hand[m] = arena[lo:len(arena)] // capacity reaches to the end of the arena
+	}
+	place(u.main)
+	for _, n := range c.Nodes {
+		if _, done := u.hand[mv(n.P, n.V)]; !done {
+			place(mv(n.P, n.V))
+		}
+	}
 	return u
 }
 
@@ -541,7 +585,7 @@ func (r *simReqs) Required(m module.Version) ([]module.Version, error) {
 	if l, ok := r.over[m]; ok {
 		return l, nil
 	}
-	l, ok := r.u.reqs[m]
+	l, ok := r.u.hand[m]
 	if !ok {
 		return nil, fmt.Errorf("unknown module %v", m)
 	}
@@ -684,6 +728,10 @@ func exec(t *testing.T, ci sim.CaseI, choices []uint32, keepLog bool) *sim.Outco
 		if v := judge(c, u, r, got); v != nil {
 			v.Step = res.Steps
 			out.Res.Violation = v
+		} else if what := u.modified(); what != "" {
+			// every later operation on the same graph selects from requirements nobody stated
+			out.Res.Violation = &sim.Violation{Class: "requirements-modified", Step: res.Steps,
+				Msg: "a requirement list returned by Reqs.Required was written to: " + what}
 		}
 	}
 	if out.Res.Violation != nil {
